@@ -116,6 +116,10 @@ STMTS = [
     ("continued-inside", ["call usub2({e}, &", "    & {f})"], {"usub2"}),
     ("semicolon", ["r = {e}; call usub({f})"], {"usub"}),
     ("twice", ["r = {e}", "r = r + {e}"], set()),
+    # bindings of the same name on two types are two procedures; the same binding through two objects is one
+    ("tbp-two-types", ["r = obj%tbp({e}) + obj2%tbp({f})"], {"tbp", "uu%tbp"}),
+    ("tbp-two-types-call-order", ["r = obj2%tbp({e})", "r = r + obj%tbp({f})"], {"tbp", "uu%tbp"}),
+    ("tbp-two-objects", ["r = obj%tbp({e}) + obj1b%tbp({f})"], {"tbp"}),
     ("keyword-like", ["if_count = {e}", "call_total = {f}"], set()),
     ("two-literals", ["print *, 'usage: call usub2(n, m) prints the value', 'e.g. ufn2(1)', {e}"], set()),
     ("two-literals2", ["s = \"a long literal, with my_abs(1)\" // 'x = sum2(3)' // '' // 'gen(2)'", "r = {e}"], set()),
@@ -127,7 +131,8 @@ CALLERS = ["subroutine", "function", "program", "modproc"]
 DECLS = [
     "integer :: larr(5), i, r, x, if_count, call_total",
     "integer, allocatable :: parr(:)",
-    "type(tt) :: obj",
+    "type(tt) :: obj, obj1b",
+    "type(uu) :: obj2",
     "character(20) :: s",
     "integer, external :: extfn",
 ]
@@ -137,6 +142,11 @@ LIB = """  integer :: marr(5)
   contains
     procedure :: tbp => tbp_impl
   end type tt
+  type uu
+    integer :: ucomp(3)
+  contains
+    procedure :: tbp => tbp_impl_u
+  end type uu
   interface gen
     module procedure gen_i
   end interface gen
@@ -164,6 +174,11 @@ LIBPROCS = """  integer function ufn(a)
     integer :: a
     gen_i = a
   end function gen_i
+  integer function tbp_impl_u(self, a)
+    class(uu) :: self
+    integer :: a
+    tbp_impl_u = a
+  end function tbp_impl_u
   integer function tbp_impl(self, a)
     class(tt) :: self
     integer :: a
@@ -211,6 +226,9 @@ def find_caller(project, caller):
 def callname(c):
     n = getattr(c, "name", c)
     n = (n or "").lower()
+    par = getattr(c, "parent", None)
+    if type(c).__name__ == "FortranBoundProcedure" and getattr(par, "name", "").lower() != "tt":
+        return f"{par.name.lower()}%{n}"  # (bindings of tt keep their bare name in the expectations)
     return {"tbp_impl": "tbp", "gen_i": "gen"}.get(n, n) if False else n
 
 
